@@ -15,6 +15,8 @@ from . import common as H
 TOL = 1e-9
 _FRESH = [0]
 TRUNCATED = [0]
+TOTAL = [0]          # draw calls of all streams in the current execution
+PATH_TRUNC = [0]
 
 
 class SymStream:
@@ -30,7 +32,8 @@ class SymStream:
 
     def _name(self, tag):
         self.k += 1
-        if self.k > self.BUDGET:
+        TOTAL[0] += 1
+        if self.k > self.BUDGET or TOTAL[0] > 2 * self.BUDGET:
             from symnp import explore
             TRUNCATED[0] += 1
             raise explore.Infeasible()
@@ -284,17 +287,25 @@ def eq_any(a, b):
 def replay(p):
     name = p['gen']
     fn = dict(GENERATORS)[name]
-    for seed in (7, 0, 12345):
+    import time as _time
+    t0 = _time.time()
+    n = 0
+    # the solver's counterexample fixes draw values (e.g. "the first draw is rejected"); the real Generator cannot be forced to
+    # produce them, so the replay searches the seeds that realise such a path: 7, 0, 12345, then 1.. for at most 20 s / 400 seeds
+    for seed in [7, 0, 12345] + list(range(1, 400)):
         a = fn(seed)
         np.random.normal(size=3)
         pyrandom.random()
         numqi.random.rand_haar_state(2)
         b = fn(seed)
+        n += 1
         fa, sa = flat(a)
         fb, sb = flat(b)
         if sa != sb or any((np.asarray(x).tobytes() != np.asarray(y).tobytes()) for x, y in zip(fa, fb)):
             return True, f'{name}: two calls with seed={seed} return different results'
-    return False, f'{name}: reproducible for seeds 7, 0, 12345'
+        if n >= 3 and _time.time() - t0 > 20:
+            break
+    return False, f'{name}: reproducible for {n} seeds'
 
 
 def replay_valid(p):
@@ -354,13 +365,16 @@ def run(chk):
         chk.configurations += 1
 
         def twice(fn=fn):
+            _FRESH[0] = 0                            # unseeded streams are numbered per execution (deterministic re-execution)
+            TOTAL[0] = 0
             a = fn(7)
             numqi.random.rand_haar_state(2)          # unrelated unseeded call in between
             np.random.default_rng().normal(size=2)
             b = fn(7)
             return a, b
         try:
-            paths, st = H.run_paths(twice, [], np_facade=fac, extra_globals=eg, feas_timeout_ms=500, max_paths=64)
+            paths, st = H.run_paths(twice, [], np_facade=fac, extra_globals=eg, feas_timeout_ms=500, max_paths=64, truncate=True)
+            PATH_TRUNC[0] += 1 if st.get('truncated_pending') else 0
         except (S.EngineError, Exception) as e:
             chk.engine_error(f'{name}', e)
             continue
@@ -386,7 +400,11 @@ def run(chk):
     def valid(name, fn, claims_of, rp, pre_of=None):
         chk.configurations += 1
         try:
-            paths, st = H.run_paths(lambda: fn(SymStream(f'v<{name}>')), [], np_facade=fac, extra_globals=eg, feas_timeout_ms=500, max_paths=64)
+            def once():
+                _FRESH[0] = 0
+                TOTAL[0] = 0
+                return fn(SymStream(f'v<{name}>'))
+            paths, st = H.run_paths(once, [], np_facade=fac, extra_globals=eg, feas_timeout_ms=500, max_paths=64)
         except S.EngineError as e:
             chk.engine_error(name, e)
             return
@@ -439,5 +457,6 @@ def run(chk):
                                                                       ir.band(ir.band_all(S.as_sb(P[i, i] == 0).n for i in range(d)), ir.band(ir.band_all(S.as_sb(e <= 1).n for e in P.reshape(-1)), ir.bconst(Mx.dtype == np.uint8)))))]
         valid(f'rand_adjacent_matrix({d})', lambda s, d=d: R.rand_adjacent_matrix(d, seed=s), adj_claims, ('c10v', {'what': 'adj', 'd': d}))
     chk.extra['paths_truncated_by_draw_budget'] = TRUNCATED[0]
-    chk.bound(draw_budget=f'{SymStream.BUDGET} draw calls per stream and path (rejection loops unrolled that far)')
+    chk.extra['generators_with_exploration_truncated_at_64_paths'] = PATH_TRUNC[0]
+    chk.bound(draw_budget=f'{SymStream.BUDGET} draw calls per stream and path, {2 * SymStream.BUDGET} over all streams of one execution (rejection loops unrolled that far); at most 65 paths per generator (beyond that the explored paths are still checked)')
     chk.solve(timeout_s=60 if quick else 300)
